@@ -10,6 +10,30 @@ from . import c10, common, mir
 from .mir import o_str
 
 
+def retention_terminates(P):
+    """Shared with C08 (the worker always makes progress).  The retention loop runs `while len >= max`; what makes it end is that each
+    iteration takes one name *out of* the listing - also when deleting that file fails (a failed delete is counted and skipped).  Decided on
+    the CFG: with the removing call's block taken out, the loop header can no longer reach itself."""
+    b = P.body("emit_file::ActiveFileSet::<'a>::apply_retention")
+    pops = [x for x in b.calls(normal_only=True) if x.callee.get("name") in ("pop", "remove", "swap_remove", "truncate", "drain", "pop_front", "pop_back", "split_off")
+            and ("Vec" in (x.callee.get("full") or "")) and b.in_cycle(x.bb)]
+    if not pops:
+        raise mir.AnchorMissing("a removal from the listing inside the retention loop")
+    hdrs = {t for s_, t in b.back_edges() if any(p.bb in b.loop_body(t) for p in pops)}
+    if not hdrs:
+        raise mir.AnchorMissing("the retention loop")
+    gone = {p.bb for p in pops}
+    for h in hdrs:
+        for n in b.succs()[h]:
+            if n in gone:
+                continue
+            if h in b.reachable_from(n, removed_blocks=gone):
+                return False, ("the retention loop can go round without removing a name from the listing (e.g. when remove_file fails): the listing "
+                               "never drops under the bound, the loop never ends, and the worker thread spins inside on_batch - no later batch, no "
+                               "flush, no shutdown"), [], pops[0].loc
+    return True, "", [p.loc for p in pops]
+
+
 def run(chk):
     P = mir.Program("K1")
     chk.use_program(P)
@@ -391,6 +415,8 @@ def run(chk):
             return False, "the retention loop is not controlled by comparing the listing length with the bound", [], pops[0].loc
         return True, "", [pops[0].loc, rm[0].loc]
     chk.ob("C11.R7:retention-loop", "retention keeps deleting while the listing is at or over the bound", r7)
+    chk.ob("C11.R7:retention-terminates", "every iteration of the retention loop shrinks the listing, whether or not the delete succeeded",
+           lambda: retention_terminates(P))
 
     def r7b():
         cb = c10.main_closure(P)
